@@ -239,12 +239,15 @@ def check_pattern(ctx, tr, rng, k, j, forced=None):
 # matcher's parser are two implementations that must agree on where brackets and extended groups end
 PUNCT_TREE = [('abc]', 'd', None), ('abc]/d)', 'f', None), ('[a', 'd', None), ('[a/b]', 'f', None), ('a', 'd', None), ('a/b', 'f', None),
               ('a)b', 'f', None), ('a]b', 'f', None), ('x(y', 'd', None), ('x(y/z', 'f', None), ('ab', 'd', None), ('ab/c]', 'f', None),
-              ('p|q', 'f', None), ('a[b', 'f', None), ('@(ab)c]', 'd', None), ('@(ab)c]/d)', 'f', None), ('a\\', 'd', None), ('a\\/b', 'f', None)]
+              ('p|q', 'f', None), ('a[b', 'f', None), ('@(ab)c]', 'd', None), ('@(ab)c]/d)', 'f', None), ('a\\', 'd', None), ('a\\/b', 'f', None),
+              ('@(x', 'd', None), ('@(x/ab', 'f', None), ('@(x/y', 'f', None)]
 PUNCT_PATTERNS = ['@(ab)c]/d)', '[a/b]', '@(a/b)', '@(a[)]b)', '@(a[/]b)', 'a*(a|b]c)', '@(ab)c]/@(d\\))', 'x(y/z', '@(x\\(y)/z', '@(x(y)/z',
                   '?(a)bc]/*', '!(a)c]/d)', '@(a|ab)/*]', '@(ab)/c]', '[[]a/b[]]', 'a[[]b', '@(a])b', '@(a]b)', '@(p|q)', '@(p\\|q)', 'p|q',
                   '@(a[b)', '+(a[)b]|a)b)', '@(ab)c]/d[)]', '@(ab)c]/*', '*]/*)', '*/*]', '[[]a/*', '@(ab|x)c]/d)', '@(@(ab)c])/d)',
                   '@(a[b)c]/d)', '*(ab)c]/d)', '+(ab)c]/[d])', '@(ab)c[]]/d)', '[@](ab)c]/d)', '\\@(ab)c]/d)', 'a\\\\/b', '@(a\\\\)/b',
-                  '[a\\\\]/b', 'a[\\\\]/b', '@(a[\\\\])/b', '**/d)', '**/*]', '@(**)/d)', 'ab{c],/c]}', '{abc]/d),x}', '@(ab{c],})/d)']
+                  '[a\\\\]/b', 'a[\\\\]/b', '@(a[\\\\])/b', '**/d)', '**/*]', '@(**)/d)', 'ab{c],/c]}', '{abc]/d),x}', '@(ab{c],})/d)',
+                  # a group that is never closed is plain text: the separator inside it still separates, also in front of a bracket
+                  '@(x/[a]b', '@(x/y', '@(x/a[b]', '*(x/[a]b', '@(x/[a]*', '@(x/[!z]b', '?(x/[a]b', '@(x/@(a)[b]', '@(x/[a/b', '@(x/[[:alpha:]]b']
 PUNCT_FLAGSETS = [('EXTGLOB', 'GLOBSTAR'), ('EXTGLOB',), (), ('EXTGLOB', 'GLOBSTAR', 'DOTGLOB', 'BRACE'), ('EXTGLOB', 'BRACE'), ('EXTGLOB', 'NODIR'),
                   ('EXTGLOB', 'GLOBSTAR', 'MATCHBASE'), ('EXTGLOB', 'IGNORECASE')]
 
